@@ -259,6 +259,12 @@ def gen_c09(rnd, n, thorough=False):
             dr = sname
         lines.append("clidiff src=s:%s dest=%s:%s from=%s until=%s archive=%d%s" % (sname, db, dr, frm, until, arch, r1))
         lines.append("clidiff src=%s:%s dest=s:%s from=%s until=%s archive=%d%s" % (db, dr, sname, frm, until, arch, r2))   # symmetric verdict
+        if side == 'local' and rnd.chance(0.35):
+            # the same comparison by the program itself (cmd/whispertool/main.go): flags, dispatch, exit status
+            wf, wu = (frm, until) if (frm == '0') == (until == '0') else ('0', '0')
+            if wf != '0' and wu != '0' and wf.startswith('@+'):
+                wf, wu = '0', '0'
+            lines.append("cliexit src=s:%s dest=%s:%s from=%s until=%s archive=%d" % (sname, db, dr, wf, wu, arch))
         cases.append({'id': 'c09-%d' % c, 'lines': lines, 'tags': {'layout': lname, 'pair': kind, 'window': wk, 'side': side}})
         if rnd.chance(0.2):
             gl = []
@@ -744,6 +750,9 @@ def gen_c16(rnd, n, thorough=False):
                 lines.append("cliviewraw src=s:%s from=%s until=%s archive=%d header=1 sort=%d%s" % (src, frm, until, arch, rnd.pick([0, 1]), t))
             elif sub == 'diff':
                 lines.append("clidiff src=s:%s dest=d:a.wsp from=%s until=%s archive=%d%s" % (src, frm, until, arch, t))
+                if to == 'file' and (frm == '0') == (until == '0') and not frm.startswith('@+') and rnd.chance(0.5):
+                    # the same invocation as a process: the exit status is the report
+                    lines.append("cliexit src=s:%s dest=d:a.wsp from=%s until=%s archive=%d" % (src, frm, until, arch))
             elif sub == 'copy':
                 lines += ["snap d/a.wsp", "clicopy src=s:%s dest=d:a.wsp from=%s until=%s archive=%d copynan=%d m=%d x=%08x layout=%s%s" % (
                     src, frm, until, arch, rnd.pick([0, 1]), m, xff, lay_csv(layout), t), "disk d/a.wsp"]
